@@ -54,3 +54,21 @@ Definition kcheck (c : kcase) : bool :=
   Nat.eqb (out_code moc) oc && Nat.eqb (out_code mos) os
   && list_eqb item_eqb (map (fun it => (pk_of (fst it), pk_of (snd it))) mitems) items
   && Nat.eqb mres residue.
+
+(* ---- the specification against the independent encoder / oracle of tools/fam/resp.py ----
+   one case = an abstract conversation, the two streams the Python encoder produced, whether the
+   Python classifier put it into a recorded finding class, and (when it did not) the views the
+   Python oracle expects *)
+Require Import V.Resp.RespSpec.
+
+Definition rty_code (t : rty) : nat :=
+  match t with TySimple => 0 | TyBulk => 1 | TyArray => 2 | TyInt => 3 | TyError => 4 | TyNull => 6 end.
+Definition pk_of_view (v : pview) : pk := (rty_code (v_ty v), v_cmd v, v_key v, v_val v, v_kw v).
+
+Definition scase : Type := conversation * (bytes * bytes * bool * list (pk * pk)).
+
+Definition scheck (c : scase) : bool :=
+  let '(cv, (cb, sb, pyexcl, views)) := c in
+  bytes_eqb (enc_cmds cv) cb && bytes_eqb (enc_replies cv) sb
+  && Bool.eqb (negb (wf_conv cv) || excl cv) pyexcl
+  && (pyexcl || list_eqb item_eqb (map (fun it => (pk_of_view (fst it), pk_of_view (snd it))) (report cv)) views).
